@@ -338,7 +338,7 @@ class Run:
             else:
                 k = KIND.get(p[0], 99)
                 ob = OBJ.get(getattr(p[1], "name", None), 5) if len(p) > 1 and not isinstance(p[1], (int, bool)) else 4
-                tm = int(bool(p[2])) if p[0] in ("wait_begin", "wait_end") else 0
+                tm = int(bool(p[2])) if p[0] in ("wait_begin", "wait_end", "acquire") and len(p) > 2 else 0
             loc = locs[rec.tid]
             if loc is None:
                 lb, lr, le = 0, 0, 0
@@ -1091,7 +1091,7 @@ def run_property(ctx, pid):
     ex.variant = (1 if ewt else 0, 1)
     ctx.notes["implementation_variant"] = dict(ext_wait_timed=ewt)
     ctx.notes["frame_locals_compared"] = locals_comparable()
-    ctx.rule = RULES[pid] + ("2-4 threads x 1-3 consecutive calls x 0-3 uniquely tagged pubs, with and without batch_waiting_duration; complete DFS over all controller choices "
+    ctx.rule = RULES[pid] + ("2-4 threads x 1-3 consecutive calls x 0-3 uniquely tagged pubs (plus batch sizes 40/301/1025 and sums crossing 300), with and without batch_waiting_duration; complete DFS over all controller choices "
                              "(thread, notified waiter, timeout, failure) for 2 threads x 1 call; random, contention-biased and freeze-one-thread schedules; wrapper level through Qiskit PrimitiveJob threads; "
                              "distinct = distinct (configuration, schedule); non-trivial = at least 2 threads and 20 steps")
     if pid == "C08" and not ewt:
@@ -1147,6 +1147,30 @@ def run_property(ctx, pid):
                 cfg = dict(level="runner", linger=rng.choice([0, 0, 1]), calls=gen_calls(rng, nthreads=rng.choice([2, 2, 3]), max_calls=2))
                 z = rng.randrange(len(cfg["calls"]))
                 ex.account(execute(cfg, freeze_at_policy(rng, z, kind, obj, occ, p_fail=pf), faults=faults), "freeze")
+    # ---- batch sizes: not all tiny (single callers and several callers whose sum crosses a threshold)
+    def sized(sizes_per_thread):
+        calls, tag = [], 1
+        for th in sizes_per_thread:
+            cs = []
+            for k in th:
+                cs.append(list(range(tag, tag + k)))
+                tag += k
+            calls.append(cs)
+        return calls
+
+    size_cfgs = [[[301]], [[1025]], [[40], [3]], [[150], [151]], [[200, 1], [200]], [[40], [301], [0]], [[2], [340, 0]]]
+    if not ctx.quick:
+        size_cfgs += [[[1025], [1025]], [[301, 301]], [[100], [100], [101]], [[600], [0], [700]]]
+    for k, sz in enumerate(size_cfgs):
+        for lg in ((0, 1) if k % 2 == 0 or not ctx.quick else (0,)):
+            cfg = dict(level="runner", linger=lg, calls=sized(sz))
+            # round-robin keeps concurrent callers in one batch; a random schedule varies the composition
+            ex.account(execute(cfg, round_robin_policy(), faults=faults), "sizes")
+            ex.account(execute(cfg, random_policy(rng, p_fail=pf / 2), faults=faults), "sizes")
+    for level in ("sampler", "estimator"):
+        for sz in ([[301]], [[160], [160]]):
+            cfg = dict(level=level, linger=0, calls=sized(sz))
+            ex.account(execute(cfg, round_robin_policy(), faults=faults), "sizes-wrapper")
     # ---- wrapper level (BatchingMutexSampler / BatchingMutexEstimator through PrimitiveJob threads)
     for i in range(ctx.n(40, 400)):
         cfg = dict(level=rng.choice(["sampler", "estimator"]), linger=rng.choice([0, 1]), calls=gen_calls(rng, nthreads=rng.choice([2, 3]), max_calls=2))
